@@ -70,8 +70,11 @@ type Case struct {
 	Seed     uint64        `json:"seed"`    // latency PRNG
 	GenSeed  uint64        `json:"genseed"` // generator seed (regenerates the case)
 	Mount    bool          `json:"mount"`    // the destination also implements registry.Mounter; MountFrom returns candidates
+	Titled   []int         `json:"titled"`   // nodes whose descriptor carries org.opencontainers.image.title inside the manifests that list them
 	CbSet    string        `json:"cbset"`    // which of PreCopy PostCopy OnCopySkipped OnMounted MountFrom are set, 5 x 0|1 ("" = all set)
 	FindSucc bool          `json:"findsucc"` // FindSuccessors set (to a function calling content.Successors) instead of nil
+	MountAlways bool       `json:"mountalways"` // every candidate repository has the blob (Mount always succeeds)
+	PreTag   int           `json:"pretag"`   // -1, or a pre-populated node the destination reference already points to before the call
 	Slow     bool          `json:"slow"`     // storage latencies of 0.2-2 ms (contention on the limiter)
 	Fast     bool          `json:"fast"`     // latencies are yields only (no sleeps): the small-scope enumeration
 	Sched    bool          `json:"sched"`    // run under testing/synctest with a PRNG-controlled scheduler
@@ -94,6 +97,8 @@ type rec struct {
 	toks   []string
 	idx    map[dkeyT]int
 	quiet  atomic.Bool // prologue of Copy (MapRoot / platform selection): not part of the copy trace
+	pro    []int       // nodes read from the source in Copy's prologue (resolveRoot's FetchReference, MapRoot /
+	// platform selection): outside the transition system, but inside "one copy call" for C04's counters
 	srcIn  int
 	dstIn  int
 	srcMax int
@@ -103,6 +108,8 @@ type rec struct {
 	bytes  [][]byte // generator's bytes per node (what a successful mount makes available)
 	fast   bool
 	slow   bool
+	seed   uint64
+	always bool // every Mount finds the blob in the candidate repository
 	sched  *sched   // controlled schedules: every delay point parks until the scheduler releases it
 }
 
@@ -181,6 +188,9 @@ func (c *closeRec) Close() error {
 
 func (s *srcW) Fetch(ctx context.Context, d ocispec.Descriptor) (io.ReadCloser, error) {
 	if s.r.quiet.Load() {
+		s.r.mu.Lock()
+		s.r.pro = append(s.r.pro, s.r.node(d))
+		s.r.mu.Unlock()
 		return s.under.Fetch(ctx, d)
 	}
 	n := s.r.node(d)
@@ -218,8 +228,17 @@ func (s srcWG) Predecessors(ctx context.Context, d ocispec.Descriptor) ([]ocispe
 type srcWRef struct{ *srcW }
 
 func (s srcWRef) FetchReference(ctx context.Context, ref string) (ocispec.Descriptor, io.ReadCloser, error) {
+	note := func(d ocispec.Descriptor) {
+		s.r.mu.Lock()
+		s.r.pro = append(s.r.pro, s.r.node(d)) // a source read of the root, in the prologue
+		s.r.mu.Unlock()
+	}
 	if rf, ok := s.under.(registry.ReferenceFetcher); ok {
-		return rf.FetchReference(ctx, ref)
+		d, rc, err := rf.FetchReference(ctx, ref)
+		if err == nil {
+			note(d)
+		}
+		return d, rc, err
 	}
 	d, err := s.under.Resolve(ctx, ref)
 	if err != nil {
@@ -229,6 +248,7 @@ func (s srcWRef) FetchReference(ctx context.Context, ref string) (ocispec.Descri
 	if err != nil {
 		return ocispec.Descriptor{}, nil, err
 	}
+	note(d)
 	return d, rc, nil
 }
 
@@ -365,9 +385,8 @@ func (d *dstW) mount(ctx context.Context, t ocispec.Descriptor, fromRepo string,
 		}
 		return err
 	}
-	d.r.lmu.Lock()
-	hit := d.r.lat.Intn(3) == 0
-	d.r.lmu.Unlock()
+	// the outcome is a function of (case seed, node, candidate), not of the order in which goroutines draw
+	hit := d.r.always || common.NewRand(d.r.seed^uint64(n+1)*0x9E3779B1^uint64(len(fromRepo)+int(fromRepo[len(fromRepo)-1]))*0x85EBCA77).Intn(3) == 0
 	if hit && n >= 0 {
 		if err := d.under.Push(ctx, t, bytes.NewReader(d.r.bytes[n])); err != nil {
 			d.r.ev(fmt.Sprintf("ME.%d.e", n), 0, -1)
@@ -435,6 +454,8 @@ type Result struct {
 	TagNode  int    // node the effective destination reference resolves to (-1 none, -2 unknown descriptor)
 	SrcMax   int
 	DstMax   int
+	ExtraTag bool  // the source reference also resolves in the destination although a different destination reference was given
+	Pro      []int // nodes read from the source in the prologue
 	Keff     int
 	Root2    int // the root after MapRoot / platform selection (ground truth), -1 if the prologue must fail
 	SetupErr error
@@ -471,6 +492,26 @@ func expectedRoot(c *Case, g *dag.Graph) int {
 	}
 	if c.Platform != "" {
 		n := g.Nodes[root]
+		if n.Kind == dag.KImage || n.Kind == dag.KDocker {
+			// SelectManifest on a manifest: the platform is read from the config blob, which must have the
+			// image-config media type of the manifest's family
+			cfg := g.Nodes[n.Succ[0]]
+			if n.Subject >= 0 {
+				cfg = g.Nodes[n.Succ[1]]
+			}
+			want := ocispec.MediaTypeImageConfig
+			if n.Kind == dag.KDocker {
+				want = dag.MTDockerConfig
+			}
+			var p ocispec.Platform
+			if cfg.Desc.MediaType != want || json.NewDecoder(bytes.NewReader(cfg.Bytes)).Decode(&p) != nil {
+				return -1
+			}
+			if p.Architecture == c.Platform && p.OS == "linux" && c.PlatVar == "" && c.PlatFeat == "" {
+				return root
+			}
+			return -1
+		}
 		if n.Kind != dag.KIndex && n.Kind != dag.KDockerL {
 			return -1
 		}
@@ -598,6 +639,13 @@ func Execute(c *Case) *Result {
 		res.SetupErr = err
 		return res
 	}
+	if c.PreTag >= 0 && (c.Mode == "t" || c.Mode == "r" || c.Mode == "X") {
+		// the destination reference exists already and points elsewhere: Copy must move it
+		if err := dst.Tag(ctx, g.Nodes[c.PreTag].Desc, c.EffRef()); err != nil {
+			res.SetupErr = fmt.Errorf("pre-tag: %w", err)
+			return res
+		}
+	}
 	if c.Dst == "ocire" {
 		closeDst()
 		dst, closeDst, err = newStore("oci", ddir)
@@ -626,7 +674,7 @@ func Execute(c *Case) *Result {
 			return nil
 		}
 	}
-	r := &rec{idx: map[dkeyT]int{}, lat: common.NewRand(c.Seed), fast: c.Fast, slow: c.Slow}
+	r := &rec{idx: map[dkeyT]int{}, lat: common.NewRand(c.Seed), fast: c.Fast, slow: c.Slow, seed: c.Seed, always: c.MountAlways}
 	for _, n := range g.Nodes {
 		if _, dup := r.idx[keyOf(n.Desc)]; dup {
 			res.SetupErr = fmt.Errorf("generator produced two nodes with the same descriptor (node %d)", n.ID)
@@ -676,9 +724,10 @@ func Execute(c *Case) *Result {
 			if !c.Mount {
 				return nil, nil
 			}
-			r.lmu.Lock()
-			k := r.lat.Intn(4)
-			r.lmu.Unlock()
+			k := common.NewRand(c.Seed ^ uint64(n+1)*0xC2B2AE35).Intn(4) // a function of (case seed, node)
+			if c.MountAlways && k == 0 {
+				k = 1
+			}
 			return []string{"repo/a", "repo/b", "repo/c"}[:min(k, 3)], nil
 		}
 	}
@@ -772,6 +821,7 @@ func Execute(c *Case) *Result {
 		r.ev("RT.0", 0, 0)
 	}
 	res.Toks = r.toks
+	res.Pro = r.pro
 	res.SrcMax, res.DstMax = r.srcMax, r.dstMax
 
 	// observe the destination (underlying store, not the wrapper)
@@ -790,6 +840,11 @@ func Execute(c *Case) *Result {
 		b, err := io.ReadAll(rc)
 		rc.Close()
 		res.BytesOK[n.ID] = err == nil && bytes.Equal(b, n.Bytes)
+	}
+	if c.Mode != "g" && c.Mode != "x" && c.DstRef != "" && c.DstRef != c.SrcRef {
+		if _, err := dst.Resolve(ctx, c.SrcRef); err == nil {
+			res.ExtraTag = true
+		}
 	}
 	if c.Mode != "g" && c.Mode != "x" {
 		d, err := dst.Resolve(ctx, c.EffRef())
@@ -876,8 +931,12 @@ func ModelInput(res *Result) string {
 		mode += "m"
 	}
 	mode += "/" + c.cbBits()
-	return fmt.Sprintf("%d %d %s %s %s %s %s %s %srp=%s:%d:%d:%d", len(g.Nodes), c.K, mode, rootField, ints(cached0),
-		strings.Join(nodes, ";"), ints(d0), tr, platformField(c, g), c.Stream, c.GenSeed, b2i(c.Thorough), c.Seed)
+	pre := ""
+	if c.PreTag >= 0 && (c.Mode == "t" || c.Mode == "r") {
+		pre = fmt.Sprintf("pt=%d ", c.PreTag)
+	}
+	return fmt.Sprintf("%d %d %s %s %s %s %s %s %s%srp=%s:%d:%d:%d", len(g.Nodes), c.K, mode, rootField, ints(cached0),
+		strings.Join(nodes, ";"), ints(d0), tr, platformField(c, g), pre, c.Stream, c.GenSeed, b2i(c.Thorough), c.Seed)
 }
 
 var archID = map[string]int{"": 0, "amd64": 1, "arm64": 2}
@@ -956,6 +1015,43 @@ func implSel(res *Result) string {
 	return " sel=?"
 }
 
+// nonMT: two nodes share the destination key but not their (non-foreign) successors' keys: the graph is
+// not mt_consistent for this destination, copy_result is then not determined (same rule as ml/c01_main.ml).
+func nonMT(c *Case, g *dag.Graph) bool {
+	key := func(n *dag.Node) string {
+		if !DigestKeyed(c.Dst) {
+			return fmt.Sprint("n", n.ID)
+		}
+		k := n.Desc.Digest.String()
+		if c.Dst == "remote" {
+			k = fmt.Sprint(n.IsManifest(), k)
+		}
+		return k
+	}
+	keys := func(n *dag.Node) string {
+		m := map[string]bool{}
+		for _, s := range n.Succ {
+			if !g.Nodes[s].Foreign() {
+				m[key(g.Nodes[s])] = true
+			}
+		}
+		var ks []string
+		for k := range m {
+			ks = append(ks, k)
+		}
+		sort.Strings(ks)
+		return strings.Join(ks, ",")
+	}
+	for i, a := range g.Nodes {
+		for _, b := range g.Nodes[i+1:] {
+			if key(a) == key(b) && keys(a) != keys(b) {
+				return true
+			}
+		}
+	}
+	return false
+}
+
 // ImplObs is the implementation's projected observable, same shape as the model's line.
 func ImplObs(res *Result) string {
 	ret := "0"
@@ -973,7 +1069,7 @@ func ImplObs(res *Result) string {
 		}
 	}
 	cr := "-"
-	if res.Err == nil {
+	if res.Err == nil && !nonMT(res.Case, res.G) {
 		cr = ints(present)
 	}
 	// the in-flight maxima are compared on successful runs only: after a failure the model drops the
